@@ -428,3 +428,106 @@ def lower_const_conditionals(fj):
             nodes[d] = {"id": d, "k": "NullStmt", "ch": [], "line": dn.get("line", 0), "col": dn.get("col", 0)}
         done += 1
     return done
+
+
+def lower_record_literals(fj, records):
+    """`*p = (T){ .a = x, .b = y };` / `s = (T){ ... };` as an expression statement is rewritten, in the facts, to the member-wise
+    assignments it stands for: `p->a = x; p->b = y;` and `p->f = 0` for every member the literal does not name (C11 6.7.9p21: they
+    are initialised like objects of static storage duration).  clang's semantic initialiser list already has one entry per member
+    in declaration order.  Rules that ask "where is field f assigned, and what" then read the one-statement form like the long one."""
+    nodes = fj.get("nodes") or []
+    blocks = (fj.get("cfg") or {}).get("blocks") or []
+    if not nodes:
+        return 0
+    parent = {}
+    for n in nodes:
+        if n:
+            for c in n.get("ch", []):
+                if c is not None and c >= 0:
+                    parent[c] = n["id"]
+
+    def strip(i):
+        while i is not None and i >= 0 and nodes[i] and nodes[i]["k"] in ("ParenExpr", "ImplicitCastExpr", "ConstantExpr", "CStyleCastExpr") and nodes[i].get("ch"):
+            i = nodes[i]["ch"][0]
+        return i
+
+    def clone(i):
+        n = dict(nodes[i])
+        n["id"] = len(nodes)
+        nodes.append(n)
+        n["ch"] = [clone(c) if c is not None and c >= 0 else c for c in nodes[i].get("ch", [])]
+        return n["id"]
+
+    def flat(i):
+        out = []
+        for c in nodes[i].get("ch", []):
+            if c is not None and c >= 0:
+                out.extend(flat(c))
+        out.append(i)
+        return out
+    done = 0
+    for asg in list(nodes):
+        if not asg or asg["k"] != "BinaryOperator" or asg.get("op") != "=" or len(asg.get("ch", [])) != 2:
+            continue
+        up = parent.get(asg["id"])
+        if up is None or nodes[up]["k"] not in ("CompoundStmt", "IfStmt", "ForStmt", "WhileStmt", "DoStmt", "LabelStmt", "CaseStmt", "DefaultStmt"):
+            continue                                   # the value of the assignment is used
+        if nodes[up]["k"] != "CompoundStmt" and nodes[up].get("cond") == asg["id"]:
+            continue
+        ci = strip(asg["ch"][1])
+        if ci is None or ci < 0 or nodes[ci]["k"] != "CompoundLiteralExpr" or not nodes[ci].get("ch"):
+            continue
+        li = strip(nodes[ci]["ch"][0])
+        il = nodes[li]
+        if il["k"] != "InitListExpr":
+            continue
+        tname = (il.get("ct") or "").replace("struct ", "").strip()
+        rec = records.get(tname) or records.get(il.get("t"))
+        if rec is None or len(rec.get("fields", [])) != len(il.get("ch", [])):
+            continue
+        lhs = strip(asg["ch"][0]) if nodes[asg["ch"][0]]["k"] == "ParenExpr" else asg["ch"][0]
+        ln = nodes[lhs]
+        arrow = ln["k"] == "UnaryOperator" and ln.get("op") == "*"
+        base = ln["ch"][0] if arrow else lhs
+        new_ids, new_elems = [], []
+        for fidx, (fld, vi) in enumerate(zip(rec["fields"], il["ch"])):
+            vn = nodes[vi]
+            if vn["k"] == "ImplicitValueInitExpr":
+                zero = {"id": vi, "k": "IntegerLiteral", "val": 0, "cv": 0, "ch": [], "t": fld.get("t"), "ct": fld.get("ct"), "w": fld.get("w"),
+                        "lv": False, "line": asg.get("line"), "col": asg.get("col"), "synthetic": "implicit-zero"}
+                if (fld.get("ct") or "").endswith("*"):
+                    zero["ck"] = "NullToPointer"
+                nodes[vi] = zero
+            b2 = clone(base)
+            mem = {"id": len(nodes), "k": "MemberExpr", "arrow": arrow, "ch": [b2], "member": fld["name"], "rec": rec.get("name") or rec.get("alias"),
+                   "fidx": fidx, "t": fld.get("t"), "ct": fld.get("ct"), "w": fld.get("w"), "lv": True,
+                   "line": nodes[vi].get("line", asg.get("line")), "col": nodes[vi].get("col", asg.get("col")), "synthetic": "record-literal"}
+            if "sg" in fld:
+                mem["sg"] = fld["sg"]
+            nodes.append(mem)
+            a2 = {"id": len(nodes), "k": "BinaryOperator", "op": "=", "ch": [mem["id"], vi], "t": fld.get("t"), "ct": fld.get("ct"), "w": fld.get("w"),
+                  "lv": False, "line": mem["line"], "col": mem["col"], "synthetic": "record-literal"}
+            nodes.append(a2)
+            for k2 in ("inlined_from",):
+                if k2 in asg:
+                    mem[k2] = asg[k2]
+                    a2[k2] = asg[k2]
+            new_ids.append(a2["id"])
+            new_elems.extend(flat(b2) + [mem["id"], a2["id"]])
+        old_lhs_nodes = flat(asg["ch"][0])
+        dead = [ci, li] + [x for x in flat(asg["ch"][1]) if x not in il["ch"] and x not in (ci, li) and not any(x in flat(v) for v in il["ch"])] + old_lhs_nodes
+        asg["k"] = "CompoundStmt"
+        asg["synthetic_of"] = "record-literal"
+        asg.pop("op", None)
+        asg["ch"] = list(new_ids)
+        for b in blocks:
+            el = b.get("elems", [])
+            if asg["id"] in el:
+                k9 = el.index(asg["id"])
+                el[k9:k9 + 1] = new_elems
+                b["elems"] = [x for x in el if x not in dead]
+        for d in dead:
+            dn = nodes[d]
+            nodes[d] = {"id": d, "k": "NullStmt", "ch": [], "line": dn.get("line", 0), "col": dn.get("col", 0)}
+        done += 1
+    return done
